@@ -654,7 +654,10 @@ cdef class ParticleArray:
 
         if update_constants:
             for const in parray.constants:
-                self.constants.setdefault(const, parray.constants[const])
+                if const not in self.constants:
+                    # copy: sharing the carray would make a later change
+                    # of the constant in one array show up in the other.
+                    self.add_constant(const, parray.constants[const])
 
         if num_extra_particles > 0 and align:
             self.align_particles()
